@@ -686,7 +686,12 @@ def main(argv):
     # ---- 6: evidence
     samples = []
     for r in results[: len(corpus) + 3][-3:] + results[-2:]:
-        samples.append({"case": r["case"], "impl": r["impl"][1] if r["impl"][0] == "ok" else r["impl"]})
+        smp = {"case": r["case"], "impl": r["impl"][1] if r["impl"][0] == "ok" else r["impl"]}
+        txt = json.dumps(smp, default=str)
+        if len(txt) > 4000:
+            # a sample is an illustration, not a log: keep the evidence file small
+            smp = {"case_hash": case_hash(r["case"]), "truncated_json": txt[:1500] + " ...", "full_length": len(txt)}
+        samples.append(smp)
     ev = {
         "property_id": pid, "tier": args.tier, "seed": seed, "level": "proof",
         "coverage": {
